@@ -16,6 +16,12 @@ Oracle for molecules: connected components from a union-find written here,
 compared as a set of frozensets (small graphs) or as canonicalised label arrays
 (long graphs).  Long graphs run in a sacrificial process; the way that process
 ends is part of the oracle.
+
+Note for reading a red result (audit A8): the *property statement* fixes the boundary rules above and
+"molecules == connected components of the bond graph" (every bond type connects, also
+BondType.COORDINATION).  Some docstrings are weaker or different (get_residue_count: "determined from
+res_id and chain_id", get_chain_count: "each time the chain ID changes", get_molecule_*: "connected via
+covalent bonds"); the check follows the property statement.
 """
 
 import numpy as np
@@ -31,11 +37,33 @@ RULE = (
     "non-trivial = >= 3 reference segments of differing size and a res id repeated in another chain "
     "(residues) resp. a res id decrease inside one chain id or a chain id that comes back (chains); "
     "molecules: bond graphs from trees, rings, cliques, paths, isolated atoms under a random relabelling, "
-    "non-trivial = >= 2 components and a cycle; long graphs: 10^3..5x10^4 atoms (2x10^5 thorough) sandboxed"
+    "non-trivial = >= 2 components and a cycle; long graphs: 10^3..5x10^4 atoms (10^5 for many_paths / balanced_tree, 2x10^5 thorough) sandboxed"
 )
 
 F1 = "C17-F1"
-F1_SAFE_N = 50_000  # largest size generated while C17-F1 is open (crash threshold measured: ~65 400 atoms)
+
+
+def _f1_safe_n():
+    """Largest single component generated while C17-F1 is open.
+
+    The crash threshold is (stack size) / (bytes per recursion frame); measured here: 8 MiB / ~65 400 atoms
+    = 128 bytes per frame.  The size is derived from the stack limit of this process (the sacrificial child
+    inherits it) with a factor 3 of margin for another build of the extension (bigger frames), and never
+    exceeds the 50 000 atoms that were generated before.  It only steers the generator: a crash below it is
+    still recognised as C17-F1 (see _f1_stack_overflow), never as a new violation.
+    """
+    try:
+        import resource
+
+        soft, _ = resource.getrlimit(resource.RLIMIT_STACK)
+    except Exception:  # noqa: BLE001  (platform without the resource module)
+        return 20_000
+    if soft == resource.RLIM_INFINITY or soft < 0:
+        return 50_000
+    return int(max(1000, min(50_000, soft // (3 * 128))))
+
+
+F1_SAFE_N = _f1_safe_n()
 
 CHAINS = ["A", "B", "", "AB"]
 NAMES = ["ALA", "GLY", "HOH", "X"]
@@ -70,9 +98,14 @@ FUNCS = [
     "max_coord_all",
     "sum_int2d_all",
     "min_int2d_all",
-    # a function whose second positional parameter is NOT the axis (np.linalg.norm(x, ord, axis))
+    # a function whose second positional parameter is NOT the axis (np.linalg.norm(x, ord, axis));
+    # judged under its own clause 'axis_given_to_axis_parameter' (see run_segments)
     "norm_axis0",
 ]
+# reducers whose float result may legitimately differ in the last bits when the segments are reduced in
+# another (e.g. vectorised) summation order: name -> how the magnitude of the rounding error is bounded
+FLOAT_FUNCS = {"sum_float32": "sum", "mean_coord_axis0": "mean", "pyfloat_mean": "mean", "norm_axis0": "norm"}
+RES_OFFSETS = [0, 0, 0, 0, 9990, 65530, -1000, 10**6]
 SPREADS = ["int", "float2d", "str", "bool"]
 INDEX_FORMS = ["int64", "list", "int32", "uint16"]
 
@@ -155,6 +188,8 @@ def st_annotated(tier):
             "bad_index": None,
             "func": draw(st.sampled_from(FUNCS)),
             "spread": draw(st.sampled_from(SPREADS)),
+            # realistic magnitudes of residue ids (added to every res id of the runs)
+            "res_offset": draw(st.sampled_from(RES_OFFSETS)),
         }
         if draw(st.integers(0, 14)) == 0:
             case["bad_index"] = ["neg" if draw(st.booleans()) else "oor", draw(st.integers(0, 5))]
@@ -166,11 +201,11 @@ def st_annotated(tier):
 # --------------------------------------------------------------------------
 # reference model (plain Python, one atom at a time)
 # --------------------------------------------------------------------------
-def expand(runs):
+def expand(runs, res_offset=0):
     """One (chain, res_id, ins, name) tuple per atom."""
     atoms = []
     for chain, res, ins, name, length in runs:
-        atoms.extend([(chain, res, ins, name)] * length)
+        atoms.extend([(chain, res + res_offset, ins, name)] * length)
     return atoms
 
 
@@ -208,7 +243,7 @@ def ref_segment_of(starts, n):
 def build_atoms(case):
     import biotite.structure as struc
 
-    atoms = expand(case["runs"])
+    atoms = expand(case["runs"], case.get("res_offset", 0))
     n = len(atoms)
     rng = np.random.default_rng(case["seed"])
     depth = case["depth"]
@@ -243,6 +278,10 @@ def api(kind):
 
 def make_indices(raw, form):
     if form == "list":
+        if not raw:
+            # documented type is "ndarray, dtype=int"; np.asarray([]) would be float64, which only works as
+            # long as the indices are never used for indexing -> an empty list is passed as empty int array
+            return np.array([], dtype=int)
         return [int(i) for i in raw]
     return np.array(raw, dtype={"int64": np.int64, "int32": np.int32, "uint16": np.uint16}[form])
 
@@ -296,6 +335,32 @@ def make_function(name, arr, atoms, rng):
         coord = arr.coord if arr.coord.ndim == 2 else arr.coord[0]
         return coord.astype(np.float64), np.linalg.norm, 0
     raise ValueError(name)
+
+
+_SKIP = object()
+
+
+def _float_close(got, want, segment, rule, axis, dtype):
+    """'equal' | 'close' | 'differs' for the float result of one segment."""
+    got = np.asarray(got, dtype=np.float64)
+    want64 = np.asarray(want, dtype=np.float64)
+    if got.shape != want64.shape:
+        return "differs"
+    if np.array_equal(got, want64, equal_nan=True):
+        return "equal"
+    mag = np.abs(np.asarray(segment, dtype=np.float64))
+    k = max(len(segment), 1)
+    if rule == "sum":
+        scale = mag.sum(axis=axis)
+    elif rule == "mean":
+        scale = mag.sum(axis=axis) / (k if axis is not None or mag.ndim == 1 else mag.size)
+    else:  # norm
+        scale = np.sqrt((mag * mag).sum(axis=axis))
+    eps = max(float(np.finfo(dtype).eps), float(np.finfo(np.asarray(want).dtype).eps) if np.asarray(want).dtype.kind == "f" else 0.0)
+    band = 4.0 * (k + 2) * eps * scale + np.finfo(np.float64).tiny
+    if bool(np.all(np.abs(got - want64) <= band)):
+        return "close"
+    return "differs"
 
 
 def make_spread_input(name, k, rng):
@@ -357,6 +422,8 @@ def run_segments(case, kind):
     nseg = len(starts)
     o.label("stack" if case["depth"] else "array", f"segments={min(nseg, 5)}{'+' if nseg > 5 else ''}")
     repeated = _labels_for_runs(o, case["runs"])
+    if case.get("res_offset", 0):
+        o.label("res_id_offset=%d" % case["res_offset"])
 
     # ---- history: the same array object was segmented before with other annotation values, which
     # were then edited in place (no state may survive between the calls)
@@ -376,7 +443,7 @@ def run_segments(case, kind):
     # ---- boundaries
     got_starts = f["starts"](arr)
     o.check_array_eq(got_starts, np.array(starts, dtype=int), f"{kind}_boundaries", "starts")
-    o.check(np.asarray(got_starts).dtype.kind == "i", f"{kind}_boundaries", "starts are not integers")
+    o.check(np.asarray(got_starts).dtype.kind in "iu", f"{kind}_boundaries", "starts are not integers")
     got_stop = f["starts"](arr, add_exclusive_stop=True)
     # documented: array_length() is appended as last element (for an empty array that is [0])
     o.check_array_eq(
@@ -429,29 +496,57 @@ def run_segments(case, kind):
         views()
     else:
         o.label("empty_array")
+        # The docstrings do not define the views of a structure without atoms: the (0, 0) / (0,) results of
+        # today and a deliberate rejection (ValueError) are both accepted.  An IndexError is the accident
+        # of defect C17-a (starts[-1] of an empty start array) and stays a violation.
         try:
             views()
         except IndexError as e:
-            # not a deliberate rejection: starts[-1] of an empty start array
             o.fail("empty_array_views", f"views of an empty array with an empty index array: IndexError {e}")
+        except ValueError:
+            o.label("empty_array_views_rejected")
+        else:
+            o.label("empty_array_views_returned")
 
-    # indices outside the array are documented as not allowed
+    # Indices outside the array.  Nothing defines a segment for an index >= n: some error is demanded, of
+    # whatever type.  For negative indices the docstrings only say "not allowed": an error of any type is
+    # accepted, and so is Python-style counting from the end - then the views of atom n + index must come back.
     if case["bad_index"] is not None:
         what, k = case["bad_index"]
         bad = list(raw)
-        bad.insert(k % (len(bad) + 1), -1 - k if what == "neg" else n + k)
+        where = k % (len(bad) + 1)
+        bad_value = -1 - k if what == "neg" else n + k
+        bad.insert(where, bad_value)
         o.label("bad_index_" + what)
+        wrapped = None
+        if what == "neg" and n + bad_value >= 0:
+            wrapped = list(raw)
+            wrapped.insert(where, n + bad_value)
+        bad_arr = np.array(bad, dtype=np.int64)
         for fn in ("starts_for", "positions", "masks"):
-            o.expect_raises(
-                (ValueError, IndexError), lambda fn=fn: f[fn](arr, np.array(bad, dtype=np.int64)), "invalid_index_rejected", f"{fn}({bad}) n={n}"
-            )
+            try:
+                got = f[fn](arr, bad_arr)
+            except Exception:  # noqa: BLE001  (the type of the error is not documented)
+                o.label(f"bad_index_{what}_raises")
+                continue
+            if wrapped is None:
+                o.fail("invalid_index_rejected", f"{fn}({bad}) n={n}: expected an error but got a value {got!r:.300}")
+                continue
+            o.label("bad_index_neg_counts_from_end")
+            if fn == "starts_for":
+                want_w = np.array([starts[seg_of[i]] for i in wrapped], dtype=int)
+            elif fn == "positions":
+                want_w = np.array([seg_of[i] for i in wrapped], dtype=int)
+            else:
+                want_w = np.array([[seg_of[j] == seg_of[i] for j in range(n)] for i in wrapped], dtype=bool)
+            o.check_array_eq(got, want_w, "invalid_index_rejected", f"{fn}({bad}) n={n} returned a value that is not the view of {wrapped}")
 
     # ---- iteration
     pieces = list(f["iter"](arr))
     if o.check_eq(len(pieces), nseg, f"{kind}_iteration", "number of iterated segments"):
         cats = arr.get_annotation_categories()
         for (a, b), piece in zip(segs, pieces):
-            ok = type(piece) is type(arr) and piece.array_length() == b - a
+            ok = isinstance(piece, type(arr)) and piece.array_length() == b - a
             ok = ok and piece.coord.shape == arr.coord[..., a:b, :].shape and np.array_equal(piece.coord, arr.coord[..., a:b, :])
             for c in cats:
                 ok = ok and np.array_equal(piece.get_annotation(c), arr.get_annotation(c)[a:b])
@@ -467,16 +562,52 @@ def run_segments(case, kind):
     data, function, axis = make_function(case["func"], arr, atoms, rng)
     o.label("func=" + case["func"])
     want_vals = [function(data[a:b]) if axis is None else function(data[a:b], axis=axis) for a, b in segs]
-    got = f["apply"](arr, data, function, axis)
-    if nseg == 0:
+    apply_clause = f"{kind}_apply"
+    if case["func"] == "norm_axis0":
+        # "The function must have either the form f(data) or f(data, axis)" / "This value is given to the
+        # `axis` parameter of `function`": the second sentence is read as "by keyword".  np.linalg.norm(x, ord,
+        # axis) tells the two readings apart, so everything this reducer shows (an exception of numpy because
+        # the axis arrived as `ord`, or other values) is reported under a clause of its own and is to be read
+        # as "the axis is no longer given to the parameter named axis" - documented ambiguously.
+        apply_clause = "axis_given_to_axis_parameter"
+        try:
+            got = f["apply"](arr, data, function, axis)
+        except Exception as e:  # noqa: BLE001
+            o.fail(apply_clause, f"apply with np.linalg.norm and axis={axis}: {type(e).__name__} {e}")
+            got = _SKIP
+    else:
+        got = f["apply"](arr, data, function, axis)
+    if got is _SKIP:
+        pass
+    elif nseg == 0:
         # no function value exists that could determine shape/dtype: None or any empty array is accepted
-        o.check(got is None or len(got) == 0, f"{kind}_apply", f"apply on empty array gave {got!r}")
-    elif o.check(isinstance(got, np.ndarray), f"{kind}_apply", lambda: f"apply returned {type(got).__name__}"):
-        if o.check_eq(got.shape, (nseg,) + np.shape(want_vals[0]), f"{kind}_apply", f"{case['func']}: result shape"):
+        o.check(got is None or len(got) == 0, apply_clause, f"apply on empty array gave {got!r}")
+    elif o.check(isinstance(got, np.ndarray), apply_clause, lambda: f"apply returned {type(got).__name__}"):
+        if o.check_eq(got.shape, (nseg,) + np.shape(want_vals[0]), apply_clause, f"{case['func']}: result shape"):
+            float_rule = FLOAT_FUNCS.get(case["func"])
+            rounded = False
             for i, w in enumerate(want_vals):
-                if not o.check_array_eq(got[i], w, f"{kind}_apply", f"{case['func']}: segment {i} [{segs[i][0]}:{segs[i][1]}]"):
+                what = f"{case['func']}: segment {i} [{segs[i][0]}:{segs[i][1]}]"
+                if float_rule is None or got.dtype.kind != "f":
+                    if not o.check_array_eq(got[i], w, apply_clause, what):
+                        break
+                    continue
+                # float reductions: the order of the additions is not fixed by anything, so the last bits
+                # may differ; the band is the classical bound len * eps * (reduction of the absolute values)
+                verdict = _float_close(got[i], w, data[segs[i][0] : segs[i][1]], float_rule, axis, got.dtype)
+                if verdict == "differs":
+                    o.fail(apply_clause, f"{what}: got {np.asarray(got[i]).tolist()!r}, want {np.asarray(w).tolist()!r}")
                     break
-            o.check_eq(got.dtype.kind, np.asarray(want_vals[0]).dtype.kind, f"{kind}_apply", f"{case['func']}: dtype kind")
+                rounded = rounded or verdict == "close"
+            if rounded:
+                o.label("apply_float_within_rounding_band")
+                o.ambiguous += 1
+            want_kind = np.asarray(want_vals[0]).dtype.kind
+            o.check(
+                got.dtype.kind == want_kind or (got.dtype.kind in "iu" and want_kind in "iu"),
+                apply_clause,
+                f"{case['func']}: dtype kind {got.dtype.kind!r}, want {want_kind!r}",
+            )
 
     # ---- spread
     inp = make_spread_input(case["spread"], nseg, rng)
@@ -490,7 +621,9 @@ def run_segments(case, kind):
     else:
         o.check_array_eq(got, want, f"{kind}_spread", f"spread {case['spread']}")
         if n:
-            o.check_eq(np.asarray(got).dtype, inp.dtype, f"{kind}_spread", "dtype")
+            # the values are compared above; of the dtype only the kind is demanded (no docstring names it)
+            gk = np.asarray(got).dtype.kind
+            o.check(gk == inp.dtype.kind or (gk in "iu" and inp.dtype.kind in "iu"), f"{kind}_spread", f"dtype kind {gk!r}, want {inp.dtype.kind!r}")
 
     # ---- non-triviality
     sizes = {b - a for a, b in segs}
@@ -560,7 +693,7 @@ def st_graph(tier):
 
     @st.composite
     def gen(draw):
-        input_kind = ["array", "stack", "bondlist"][draw(st.integers(0, 2))]
+        input_kind = ["array", "stack", "bondlist", "array", "stack1", "bondlist"][draw(st.integers(0, 5))]
         blocks = draw(
             st.lists(
                 st.tuples(
@@ -618,6 +751,8 @@ def st_graph(tier):
             "bonds": bonds,
             "input": input_kind,
             "blocks": [b[0] for b in blocks],
+            # root atom for the direct find_connected() call (reduced modulo n)
+            "root": draw(st.integers(0, 10**6)),
         }
 
     return gen()
@@ -630,7 +765,7 @@ def build_bonded(n, bonds, input_kind):
     bl = struc.BondList(n, barr) if len(barr) else struc.BondList(n)
     if input_kind == "bondlist":
         return bl
-    arr = struc.AtomArray(n) if input_kind == "array" else struc.AtomArrayStack(2, n)
+    arr = struc.AtomArray(n) if input_kind == "array" else struc.AtomArrayStack(1 if input_kind == "stack1" else 2, n)
     arr.res_id = np.arange(n)  # identifies the atoms in iterated molecules
     arr.bonds = bl
     return arr
@@ -679,10 +814,30 @@ def run_molecules(case):
     # iterator form
     if case["input"] != "bondlist":
         mols = list(struc.molecule_iter(obj))
-        o.check(all(type(m) is type(obj) for m in mols), "molecule_iteration", "iterated molecule has another type")
+        o.check(all(isinstance(m, type(obj)) for m in mols), "molecule_iteration", "iterated molecule has another type")
         goti = {frozenset(int(i) for i in m.res_id) for m in mols}
         o.check(goti == want, "molecule_iteration", lambda: f"iter: got {sorted(map(sorted, goti))} want {sorted(map(sorted, want))}")
         o.check_eq(sum(m.array_length() for m in mols), n, "molecule_iteration", "iter: every atom in exactly one molecule")
+
+    # the traversal itself (public, every root - the functions above only start at the first unvisited atom)
+    if n > 0:
+        root = case.get("root", 0) % n
+        bl = obj if case["input"] == "bondlist" else obj.bonds
+        comp_of_root = next(c for c in want if root in c)
+        o.label("root_is_first_of_component" if root == min(comp_of_root) else "root_inside_component")
+        conn = struc.find_connected(bl, root)
+        o.check(
+            np.asarray(conn).dtype.kind in "iu" and len(conn) == len(comp_of_root) and {int(i) for i in conn} == set(comp_of_root),
+            "molecules_are_components",
+            lambda: f"find_connected(root={root}): got {sorted(int(i) for i in conn)} want {sorted(comp_of_root)}",
+        )
+        mask = np.asarray(struc.find_connected(bl, root, as_mask=True))
+        if o.check(mask.shape == (n,), "molecule_masks", lambda: f"find_connected(as_mask=True): shape {mask.shape}, want {(n,)}"):
+            o.check(
+                {int(i) for i in np.where(mask)[0]} == set(comp_of_root),
+                "molecule_masks",
+                lambda: f"find_connected(root={root}, as_mask=True): got {np.where(mask)[0].tolist()} want {sorted(comp_of_root)}",
+            )
 
     o.mark_nontrivial(len(want) >= 2 and has_cycle)
     return o
@@ -691,26 +846,49 @@ def run_molecules(case):
 # --------------------------------------------------------------------------
 # molecules: long graphs in a sacrificial process
 # --------------------------------------------------------------------------
-LONG_SHAPES = ["path", "path_reversed", "shuffled_path", "ring", "two_paths_isolated", "comb", "ladder", "many_small"]
+LONG_SHAPES = [
+    "path",
+    "path_reversed",
+    "shuffled_path",
+    "ring",
+    "two_paths_isolated",
+    "comb",
+    "ladder",
+    "many_small",
+    "many_paths",
+    "balanced_tree",
+]
+# shapes whose traversal depth stays small whatever the number of atoms: not narrowed for C17-F1, and a crash
+# on them is NOT that finding
+SHALLOW_SHAPES = ("many_small", "many_paths", "balanced_tree")
+MANY_PATHS_MAX_LEN = 5000
 LONG_FORMS = ["indices", "indices", "masks", "iter"]
 MANY_SMALL_MAX = 3000
 
 
 def st_long(tier):
     sizes = [1000, 2000, 5000, 10_000, 20_000, 30_000, 40_000, 50_000]
+    # "structures of any size": the shapes with small components also get the sizes that C17-F1 forbids
+    # for a single long component (beyond 2**16 atoms in the quick tier, too)
+    shallow_sizes = [5000, 20_000, 50_000, 70_000, 100_000]
     if tier == "thorough":
         sizes += [65_000, 66_000, 100_000, 200_000, 200_000]
+        shallow_sizes += [140_000, 200_000, 200_000]
 
     @st.composite
     def gen(draw):
-        n_raw = draw(st.sampled_from(sizes)) - draw(st.sampled_from([0, 0, 1, 7, 500]))
         shape = draw(st.sampled_from(LONG_SHAPES))
+        if shape in ("many_paths", "balanced_tree"):
+            n_raw = draw(st.sampled_from(shallow_sizes)) - draw(st.sampled_from([0, 0, 1, 7, 500]))
+        else:
+            n_raw = draw(st.sampled_from(sizes)) - draw(st.sampled_from([0, 0, 1, 7, 500]))
         form = draw(st.sampled_from(LONG_FORMS))
         n = n_raw
         narrowed = False
         # C17-F1 (open): recursion depth of find_connected grows with the size of a component;
-        # components above ~65 400 atoms kill the process.  Narrowed by construction.
-        if findings.is_open(F1) and n > F1_SAFE_N and shape != "many_small":
+        # components above (stack limit / ~128 bytes) atoms kill the process (~65 400 at 8 MiB).
+        # Narrowed by construction to a size derived from the stack limit of this process.
+        if findings.is_open(F1) and n > F1_SAFE_N and shape not in SHALLOW_SHAPES:
             n = F1_SAFE_N
             narrowed = True
         return {
@@ -766,6 +944,24 @@ def long_bonds(shape, n, seed):
         p = rng.permutation(n)
         a, b, c = p[:t], p[t : 2 * t], p[2 * t : 3 * t]
         e = np.concatenate([np.stack([a, b], 1), np.stack([b, c], 1), np.stack([c, a], 1)])
+    elif shape == "many_paths":
+        # paths of bounded length (so that the depth of the traversal stays far below any stack limit), a few
+        # isolated atoms, everything under a random relabelling
+        p = rng.permutation(n)
+        iso = 5
+        max_len = int(rng.integers(1000, MANY_PATHS_MAX_LEN + 1))
+        body = p[: n - iso]
+        e = np.stack([body[:-1], body[1:]], axis=1)
+        # cut after every max_len-th atom at the latest: bond i joins body[i] and body[i + 1]
+        cuts = np.arange(max_len - 1, len(e), max_len)
+        extra = rng.integers(0, len(e), 3)
+        e = np.delete(e, np.unique(np.concatenate([cuts, extra])), axis=0)
+    elif shape == "balanced_tree":
+        # atom i is bonded to atom (i - 1) // 3: depth ~ log3(n), up to 4 bonds per atom; random relabelling
+        p = rng.permutation(n)
+        child = ar(1, n)
+        e = np.stack([p[(child - 1) // 3], p[child]], axis=1)
+        e = e[rng.permutation(len(e))]
     else:
         raise ValueError(shape)
     bonds = np.concatenate([e, rng.integers(0, 10, (len(e), 1))], axis=1).astype(np.uint32)
@@ -848,7 +1044,8 @@ def run_long(case):
     if status != "ok":
         o.fail(
             "any_size_no_crash",
-            f"{case['form']} form on a {case['shape']} graph with {n} atoms ended the process: {status} {value}",
+            f"{case['form']} form on a {case['shape']} graph with {n} atoms ended the process: {status} {value}"
+            + (" [process killed by a signal]" if status == "signal" else ""),
         )
         return o
     if "error" in value:
@@ -904,19 +1101,21 @@ SUBS = [
         quick=160,
         thorough=3200,
         rule=">= 10^4 atoms",
-        clauses="molecules of structures of any size: components of paths/rings/ladders of 10^3..2x10^5 atoms, "
+        clauses="molecules of structures of any size: components of paths/rings/ladders/trees of 10^3..2x10^5 atoms, "
         "process exit status",
     ),
 ]
 
 
 def _f1_stack_overflow(sub, case, clause, message):
+    # the case class of the finding: one long connected component (every long shape except the ones built
+    # from small / shallow components), the sacrificial process killed by a signal.  No size constant: where
+    # the stack ends depends on the stack limit and on the build of the extension.
     return (
         sub == "long_graphs"
         and clause == "any_size_no_crash"
-        and case["shape"] != "many_small"
-        and case["n"] > F1_SAFE_N
-        and "SIGSEGV" in message
+        and case["shape"] not in SHALLOW_SHAPES
+        and "[process killed by a signal]" in message
     )
 
 
